@@ -296,8 +296,13 @@ func supervise(scs []Scenario) {
 					done++
 				}
 				mu.Unlock()
-				if err == nil {
+				if err == nil && cur+done >= hi {
 					break
+				}
+				if err == nil && done > 0 {
+					// the child left deliberately after a scenario (Rec.DoneAndExit): continue with a fresh one
+					cur += done
+					continue
 				}
 				// the child died: `got` ends with the scenario it died in (marked Died) - resume after it
 				cur += done
